@@ -628,6 +628,9 @@ class BaseWorklist(list):
         source.remove(source.wells[0, source_column], volume * n_dst, label=label)
         src_composition = source.get_well_composition(source.wells[0, source_column])
         destination.add(destination_wells, volume, label=label, compositions=[src_composition] * n_dst)
+        if destination == source:
+            # like in transfer(), an operation within one labware is logged as one history entry
+            source.condense_log(2, label=label)
 
         # hand over to low-level command implementation
         self.comment(label)
